@@ -124,8 +124,9 @@ Aux:
 						panic(fmt.Sprintf("Missing value for key :%s.", sym))
 					}
 					// Keys that are not declared are allowed and ignored. They
-					// are not variables of the function.
-					if lam.hasKey(string(sym)) {
+					// are not variables of the function. If a key is given
+					// more than once the first one is used.
+					if lam.hasKey(string(sym)) && !ss.localHas(string(sym)) {
 						ss.Let(sym, args[ai])
 					}
 					ai++
